@@ -130,7 +130,7 @@ def parse_output(res, text, want_tags=()):
     return res
 
 
-def run_tlc(module, cfg, workers=16, simulate=None, depth=None, seed=None,
+def run_tlc(module, cfg, workers=16, simulate=None, depth=None, seed=None, simfile=None,
             env=None, timeout=3600, coverage=False, deadlock=False, xmx='6g',
             tag=None, dfs=False, extra=()):
     """module: path of .tla (under spec/); cfg: path of cfg file."""
@@ -150,7 +150,7 @@ def run_tlc(module, cfg, workers=16, simulate=None, depth=None, seed=None,
     if coverage:
         cmd += ['-coverage', '1']
     if simulate:
-        cmd += ['-simulate', 'num=%d' % simulate]
+        cmd += ['-simulate', ('file=%s,' % simfile if simfile else '') + 'num=%d' % simulate]
         if depth:
             cmd += ['-depth', str(depth)]
     if seed is not None:
